@@ -215,6 +215,15 @@ def run(index: RepoIndex, rep) -> None:
              'neither field', floor=5)
     rep.rule('C04.R5', 'OuterEnv delegates reset/step and converts state/observation', floor=6)
 
+    rep.rule('C04.R6', 'the seed alone decides the trajectory: every call that may draw '
+             'forwards the environment\'s generator (C02.R3), and GridWorld hands states and '
+             'observations through unchanged', floor=20)
+    from .c02 import rng_forwarding
+    from .wiring import observation_passthrough, reset_passthrough, step_on_callers_state
+    rng_forwarding(index, rep, 'C04.R6')
+    reset_passthrough(index, rep, 'C04.R6')
+    observation_passthrough(index, rep, 'C04.R6')
+    step_on_callers_state(index, rep, 'C04.R6')
     cls = index.cls(INNER, 'InnerEnv')
     # ---------------------------------------------------------------- R1
     # private methods that are inlined into their callers are judged at the call sites
